@@ -38,6 +38,7 @@ inline RunCfg compress_cfg(Rng &rng, int level, bool seq, int W, bool vary_io) {
     c.out_kind = rng.below(2) ? sim::K_PIPE : sim::K_FILE;
     if (rng.below(3) == 0) c.out_frag = random_frag(rng);
   }
+  if (W >= 2 && rng.below(6) == 0) random_stall(rng, c.sched, 0);     // "slow node": a worker stalled while it holds a task
   c.junk = (uint8_t)(1 + rng.below(255));
   return c;
 }
@@ -62,6 +63,7 @@ inline RunCfg decompress_cfg(Rng &rng, int W, bool knobs, size_t in_bytes, size_
       c.out_granul = g;
     }
   }
+  if (W >= 2 && rng.below(6) == 0) random_stall(rng, c.sched, 1);     // "slow node": a worker stalled while it holds a task
   c.junk = (uint8_t)(1 + rng.below(255));
   return c;
 }
